@@ -46,12 +46,13 @@ type Run struct {
 	KnownHits map[string]string // known signature -> first detail
 	Viol      *Violation
 
-	signers  map[string]cose.Signer // long-lived Signer objects of this run (world.go)
-	mapPerms int                    // non-identity permutations handed to map ranges of go-cose (instrumented builds)
-	shape    []string
-	sched    []uint64 // schedule hashes of the concurrent blocks of this run
-	trace    []string // rendered operations (kept short)
-	Logged   *strings.Builder
+	seamPanic bool
+	signers   map[string]cose.Signer // long-lived Signer objects of this run (world.go)
+	mapPerms  int                    // non-identity permutations handed to map ranges of go-cose (instrumented builds)
+	shape     []string
+	sched     []uint64 // schedule hashes of the concurrent blocks of this run
+	trace     []string // rendered operations (kept short)
+	Logged    *strings.Builder
 }
 
 // NewRun prepares a run.
@@ -238,6 +239,10 @@ func call(f func()) (lp *LibPanic) {
 			if _, ok := x.(skipRun); ok {
 				panic(x)
 			}
+			if sp, ok := x.(SeamPanic); ok {
+				lp = &LibPanic{Value: sp, Class: "seam-panic", Frame: "seam"}
+				return
+			}
 			lp = describePanic(x)
 		}
 	}()
@@ -250,6 +255,12 @@ func call(f func()) (lp *LibPanic) {
 func (r *Run) Lib(f func()) {
 	r.Steps++
 	if lp := call(f); lp != nil {
+		if lp.Class == "seam-panic" {
+			// raised by a stub on purpose and passed on by go-cose: the world
+			// asks with TakeSeamPanic
+			r.seamPanic = true
+			return
+		}
 		if panicIsViolation[r.Prop] && lp.Frame != "?" {
 			// these properties promise a result (a message that verifies, bytes,
 			// an error value) for the calls their worlds make; a panic is none
@@ -259,6 +270,16 @@ func (r *Run) Lib(f func()) {
 		r.Probe("lib-panic-abandoned")
 		r.Skip("library panic: " + lp.Class + " in " + lp.Frame)
 	}
+}
+
+// TakeSeamPanic reports (once) whether the last library call ended with a
+// panic of a seam propagating out of go-cose, as an error value.
+func (r *Run) TakeSeamPanic(err error) error {
+	if r.seamPanic {
+		r.seamPanic = false
+		return fmt.Errorf("panic propagated to the caller: %w", ErrSeamPanic)
+	}
+	return err
 }
 
 // panicIsViolation lists the properties whose statement promises an outcome
